@@ -23,31 +23,10 @@ func runC17(c *Ctx) {
 
 	ruleErrPassthrough(c)
 
-	R.Rule("R-enh-default", "E3+E4", "writeResponse replaces an unset enhanced code by {class,0,0} for classes 2, 4, 5 and by none otherwise", 3)
-	if f := c.A.Func("(*Conn).writeResponse"); f != nil {
-		hasCmp, hasDiv := false, false
-		consts := map[int64]bool{}
-		allInstrs(f, func(in ssa.Instruction) {
-			if bo, ok := in.(*ssa.BinOp); ok {
-				if (describe(bo.X) == "EnhancedCodeNotSet" || describe(bo.Y) == "EnhancedCodeNotSet") && bo.Op.String() == "==" {
-					hasCmp = true
-				}
-				if bo.Op.String() == "/" && describe(bo.X) == "param1" {
-					if k, ok := constInt(bo.Y); ok && k == 100 {
-						hasDiv = true
-					}
-				}
-				if bo.Op.String() == "==" && strings.HasPrefix(describe(bo.X), "(param1 / 100)") {
-					if k, ok := constInt(bo.Y); ok {
-						consts[k] = true
-					}
-				}
-			}
-		})
-		R.Ob("(*Conn).writeResponse/tests EnhancedCodeNotSet", c.P.Pos(f.Pos()), hasCmp, "no comparison with EnhancedCodeNotSet")
-		R.Ob("(*Conn).writeResponse/class = code/100", c.P.Pos(f.Pos()), hasDiv, "class not derived as code/100")
-		R.Ob("(*Conn).writeResponse/defaults for classes 2,4,5", c.P.Pos(f.Pos()), len(consts) == 3 && consts[2] && consts[4] && consts[5], fmt.Sprintf("defaulting classes %v", consts))
-	}
+	ruleEnhDefault(c)
+
+	// multi-line texts are split into one reply line per LF (shared with C04)
+	ruleReplyFormat(c)
 
 	R.Rule("R-multiline-agree", "E8 sibling agreement", "every line printed for a reply that has an enhanced code carries that code (the client strips it from every line after taking it from the first)", 2)
 	if f := c.A.Func("(*Conn).writeResponse"); f != nil {
@@ -251,4 +230,34 @@ func ruleErrPassthrough(c *Ctx) {
 		}
 	}
 
+}
+
+// ruleEnhDefault is shared by C17 and C04 (a reply without explicit enhanced code still carries one of its class).
+func ruleEnhDefault(c *Ctx) {
+	R := c.R
+	R.Rule("R-enh-default", "E3+E4", "writeResponse replaces an unset enhanced code by {class,0,0} for classes 2, 4, 5 and by none otherwise", 3)
+	if f := c.A.Func("(*Conn).writeResponse"); f != nil {
+		hasCmp, hasDiv := false, false
+		consts := map[int64]bool{}
+		allInstrs(f, func(in ssa.Instruction) {
+			if bo, ok := in.(*ssa.BinOp); ok {
+				if (describe(bo.X) == "EnhancedCodeNotSet" || describe(bo.Y) == "EnhancedCodeNotSet") && bo.Op.String() == "==" {
+					hasCmp = true
+				}
+				if bo.Op.String() == "/" && describe(bo.X) == "param1" {
+					if k, ok := constInt(bo.Y); ok && k == 100 {
+						hasDiv = true
+					}
+				}
+				if bo.Op.String() == "==" && strings.HasPrefix(describe(bo.X), "(param1 / 100)") {
+					if k, ok := constInt(bo.Y); ok {
+						consts[k] = true
+					}
+				}
+			}
+		})
+		R.Ob("(*Conn).writeResponse/tests EnhancedCodeNotSet", c.P.Pos(f.Pos()), hasCmp, "no comparison with EnhancedCodeNotSet")
+		R.Ob("(*Conn).writeResponse/class = code/100", c.P.Pos(f.Pos()), hasDiv, "class not derived as code/100")
+		R.Ob("(*Conn).writeResponse/defaults for classes 2,4,5", c.P.Pos(f.Pos()), len(consts) == 3 && consts[2] && consts[4] && consts[5], fmt.Sprintf("defaulting classes %v", consts))
+	}
 }
